@@ -884,6 +884,13 @@ func RandProg(r *rand.Rand) Prog {
 			}
 			part.Holes = append(part.Holes, h)
 		}
+		if m == "Joins" && r.Intn(2) == 0 {
+			// a raw join (always a named-expression build) whose first list is empty and written "(?)",
+			// with further positional arguments after it
+			e := g.hole(0)
+			e.Arg, e.Op = Arg{K: "slice"}, "INP"
+			part.Holes = append([]Hole{e}, part.Holes...)
+		}
 		p.Parts = append(p.Parts, part)
 	}
 	return p
